@@ -108,3 +108,19 @@ def rand_depression(rng):
 
 def dir_tok(d):
     return I(1 if d.value == 1 else -1)
+
+
+class SubDT(datetime.datetime):
+    """an instance of a user subclass of datetime (what pandas / freezegun / pendulum hand out):
+    everywhere a datetime is accepted, it means the same as the plain datetime with its fields"""
+
+
+class SubDate(datetime.date):
+    """a user subclass of date"""
+
+
+def as_sub(dt):
+    if isinstance(dt, datetime.datetime):
+        return SubDT(dt.year, dt.month, dt.day, dt.hour, dt.minute, dt.second, dt.microsecond,
+                     tzinfo=dt.tzinfo, fold=dt.fold)
+    return SubDate(dt.year, dt.month, dt.day)
